@@ -53,6 +53,7 @@ CONFIGS = {
         C("rlist-1c", "redis", "list", ttl1=1, budget=20000),
         C("rdict-2c", "redis", "dict", nc=2, w2=1, lite=1, budget=10000),
         C("rlist-2c", "redis", "list", nc=2, w2=1, lite=1, budget=10000),
+        C("rdict-2c-both", "redis", "dict", nc=2, nkeys=1, budget=10000),
     ],
     "thorough": [
         C("file", "file", "dict"),
